@@ -88,6 +88,12 @@ def mutate(rng, s, tokens):
     return "".join(rng.choice(tokens) for _ in range(rng.randint(1, 6)))
 
 
+HUGE = [
+    "$[?@.a == " + "9" * 5000 + "]", "$[?@.a == -" + "9" * 5000 + "]", "$[?@.a == 1e400]", "$[?@.a == 1." + "0" * 5000 + "]", "$[" + "9" * 5000 + "]",
+    "$[1:" + "9" * 5000 + "]", "$[?@.a == 1e" + "9" * 30 + "]", "$[?@.a == " + "9" * 400 + "e5]", "$['" + "a" * 20000 + "']", "$[?@.a == '" + "\\\\" * 3000 + "']",
+]
+
+
 def run(tier, seed):
     import warnings
 
@@ -99,8 +105,11 @@ def run(tier, seed):
     docs = [[{"a": 1, "b": "abc"}, "xyz", 0, None, [1, "a"], {"a": {"b": [1]}}], {"a": "abc", "b": [1, {"a": "x"}], "c": {"a": 1}}, "text", 5]
     old = signal.signal(signal.SIGALRM, _alarm)
     try:
-        for i in range(n):
-            text = mutate(rng, rng.choice(SEED_QUERIES), QUERY_TOKENS) if i % 4 else "".join(rng.choice(QUERY_TOKENS) for _ in range(rng.randint(1, 8)))
+        for i in range(n + len(HUGE)):
+            if i >= n:
+                text = HUGE[i - n]  # literals and names far beyond any sensible size
+            else:
+                text = mutate(rng, rng.choice(SEED_QUERIES), QUERY_TOKENS) if i % 4 else "".join(rng.choice(QUERY_TOKENS) for _ in range(rng.randint(1, 8)))
             box = {}
             signal.setitimer(signal.ITIMER_REAL, 2.0)
             why = guarded("compile", lambda: box.setdefault("p", env.compile(text)))
@@ -156,7 +165,8 @@ def run(tier, seed):
             else:
                 rec.ok(("r", rel))
         opnames = ["add", "remove", "replace", "move", "copy", "test", "addne", "addap", "nope", 1, None]
-        ppaths = ["", "/a", "/a/0", "/b/-", "/b/0", "/b/5", "/#", "/a/#0", "/~", "/-", "/c/a", "a", "/b/01", "/\\", "/b/-1", 5, None, "/a\\u00"]
+        ppaths = ["", "/a", "/a/0", "/b/-", "/b/0", "/b/5", "/#", "/a/#0", "/~", "/-", "/c/a", "a", "/b/01", "/\\", "/b/-1", 5, None, "/a\\u00",
+                  "/#a", "/#b", "/b/#0", "/b/#1", "/b/#5", "/#0", "/#1", "/~a", "/b/~0", "/a/#a", "/#c", "/2/#a", "/1/#0"]
         for i in range(n // 3):
             ops = []
             for _ in range(rng.randint(1, 3)):
